@@ -32,6 +32,7 @@ SEQUENTIAL = {
        T('rt-31-255', 'base', 'mode=rt', 'ns=31,255', 'variants=2'),
        T('rt-256', 'base', 'mode=rt', 'ns=256', 'variants=2'),
        T('rt-recycle', 'base', 'mode=recycle'),
+       T('rt-prefix', 'base', 'mode=prefix'),
        # the same explorer one size step smaller under ASan+UBSan
        T('matrix-asan', 'asan', 'mode=matrix', NOCOUNT),
        T('cast-asan', 'asan', 'mode=cast', NOCOUNT)]
@@ -39,7 +40,8 @@ SEQUENTIAL = {
     + [T('long-asan', 'asan', 'mode=long', 'rotstep=7', NOCOUNT)]
     + [T('rt-small-asan', 'asan', 'mode=rt', 'ns=0,1,2,3,4,31', 'pool=7', 'variants=2', NOCOUNT),
        T('rt-256-asan', 'asan', 'mode=rt', 'ns=255,256', 'variants=1', 'stride=16', NOCOUNT),
-       T('rt-recycle-asan', 'asan', 'mode=recycle', NOCOUNT, env=NOQUARANTINE)]
+       T('rt-recycle-asan', 'asan', 'mode=recycle', NOCOUNT, env=NOQUARANTINE),
+       T('rt-prefix-asan', 'asan', 'mode=prefix', NOCOUNT)]
   ),
   'thorough': (
     [T('matrix', 'base', 'mode=matrix', NOCOUNT),
@@ -52,6 +54,7 @@ SEQUENTIAL = {
        T('rt-128-255', 'base', 'mode=rt', 'ns=128,255', 'kinds=2', 'variants=3'),
        T('rt-256', 'base', 'mode=rt', 'ns=256', 'kinds=2', 'variants=3'),
        T('rt-recycle', 'base', 'mode=recycle', 'full=1'),
+       T('rt-prefix', 'base', 'mode=prefix'),
        T('matrix-asan', 'asan', 'mode=matrix', NOCOUNT),
        T('cast-asan', 'asan', 'mode=cast', NOCOUNT)]
     + shards('pairs-asan', 'asan', 8, 'mode=hist', 'depth=2', ALL_EPS, NOCOUNT)
@@ -60,7 +63,8 @@ SEQUENTIAL = {
     + [T('rt-small-asan', 'asan', 'mode=rt', 'ns=0,1,2,3,4', 'pool=8', 'variants=2', NOCOUNT),
        T('rt-31-255-asan', 'asan', 'mode=rt', 'ns=31,255', 'variants=2', NOCOUNT),
        T('rt-256-asan', 'asan', 'mode=rt', 'ns=256', 'variants=2', NOCOUNT),
-       T('rt-recycle-asan', 'asan', 'mode=recycle', 'full=1', NOCOUNT, env=NOQUARANTINE)]
+       T('rt-recycle-asan', 'asan', 'mode=recycle', 'full=1', NOCOUNT, env=NOQUARANTINE),
+       T('rt-prefix-asan', 'asan', 'mode=prefix', NOCOUNT)]
   ),
 }
 
@@ -113,7 +117,11 @@ CHECK = {
            'instance or not at all; the FIRST lookup on T2 is X (each entry point, first and last member), then a sweep over 38 '
            'classes; a case counts as executed only if T2 really received the address T1 had (recycle_same_address in the '
            'evidence; the ASan instance runs with the quarantine off for that reason); interleave = lookups of X alternating between '
-           'three live types that declare X with instance I1, with I2, and not at all. cast = all ordered '
+           'three live types that declare X with instance I1, with I2, and not at all. prefix = five user classes whose names are '
+           'prefixes of one another (K1/K10/K100, Pri/Print): run-time types over every non-empty subset in every declaration '
+           'order (325) x every order of first lookups of the five classes (120) with rotating entry points, then a sweep; and '
+           'seven statically declared types over the same classes (longer before shorter, shorter before longer, only one of '
+           'them) x 120 lookup orders x 8 starting entry points, each from the cold record. cast = all ordered '
            'pairs of exported types, for a harness object of the type and for the type object itself. '
            'states = distinct (type, configuration) pairs reached (interned) in the deepest history family of the tier (pairs in '
            'quick, triples in thorough; shards partition the types) plus, for each run-time type object, 1 + the number of '
@@ -130,7 +138,7 @@ CHECK = {
               'n in {0,1,2,3,4,31,255,256}: all permutations of all n-subsets of an 8-class pool x 2 member variants for n<=4, '
               'all rotations x 2 variants above, 290-class lookup universe; recycled type blocks: 32 classes x n in {1,3} x 8 x 8 '
               'entry points x {other instance, class absent} x members (10112 cases; thorough x {del_raw, del_root}) + 316 '
-              'alternating-type cases; cast 71x71x2; ASan+UBSan: matrix, cast, pairs over '
+              'alternating-type cases; prefix-named classes: 39000 run-time + 6720 static-type histories; cast 71x71x2; ASan+UBSan: matrix, cast, pairs over '
               'a 151-operation alphabet, long histories every 7th rotation, run-time n<=31 full and 255/256 every 16th rotation'),
     'thorough': ('as quick plus all ordered TRIPLES over the 240-operation alphabet (8 public entry points x 30 classes) per '
                  'type from cold (9.8e8 histories); run-time types n in {0..5,8,17,18,19,31,32,64,128,255,256}, '
